@@ -369,7 +369,7 @@ fn c12_moveset_find_contract() {
         if i < n {
             let st = crate::State::new(
                 board_from(&[0u64; 16]),
-                Color::White,
+                crate::Color::White,
                 crate::utils::ArrayMap::new([crate::CastleRights::NONE, crate::CastleRights::NONE]),
                 None,
                 crate::Clock { halfmove_clock: 100 + i, fullmove_number: 1 },
